@@ -63,6 +63,16 @@ def check_decode(t, buf):
         got = bytes(got)
     if not R.ref_equal(got, _shape(t, want)):
         return [Disc(f"decode.value.{sig}", f"type={t} bytes={bytes(buf[:pos]).hex()} library={got!r} reference={want!r}"[:900])]
+    if isinstance(got, (list, dict)):
+        R.scramble(got)   # the caller may modify what it received; the next decode of the same bytes must not notice
+        try:
+            again = C.lib_decode(t, bytes(buf[:pos]))
+        except Exception as e:
+            return [Disc(f"decode.aliasing-raises.{sig}", f"type={t}: second decode raised {e!r}")]
+        if isinstance(again, bytearray):
+            again = bytes(again)
+        if not R.ref_equal(again, _shape(t, want)):
+            return [Disc(f"decode.aliasing.{sig}", f"type={t} bytes={bytes(buf[:pos]).hex()}: after the caller modified the first result a second decode gives {again!r}, reference {want!r}"[:900])]
     return []
 
 
